@@ -425,6 +425,9 @@ class Padding(WidgetDecoration[WrappedWidget], typing.Generic[WrappedWidget]):
         if size and self._width_type != WHSettings.CLIP:
             maxvals = (size[0] - left - right,) + size[1:]
             return self._original_widget.keypress(maxvals, key)
+        if not size and self._width_type == WHSettings.GIVEN:
+            # FIXED render of a GIVEN width hands the widget (width,): so must every other entry point
+            return self._original_widget.keypress((self._width_amount,), key)
         return self._original_widget.keypress((), key)
 
     def get_cursor_coords(self, size: tuple[()] | tuple[int] | tuple[int, int]) -> tuple[int, int] | None:
@@ -437,6 +440,8 @@ class Padding(WidgetDecoration[WrappedWidget], typing.Generic[WrappedWidget]):
             maxvals = (size[0] - left - right,) + size[1:]
             if maxvals[0] == 0:
                 return None
+        elif not size and self._width_type == WHSettings.GIVEN:
+            maxvals = (self._width_amount,)
         else:
             maxvals = ()
 
@@ -465,7 +470,7 @@ class Padding(WidgetDecoration[WrappedWidget], typing.Generic[WrappedWidget]):
             maxvals = (maxcol - left - right,) + size[1:]
         else:
             maxcol = self.pack((), True)[0]
-            maxvals = ()
+            maxvals = (self._width_amount,) if self._width_type == WHSettings.GIVEN else ()
         if self._width_type == WHSettings.CLIP:
             maxvals = ()
 
@@ -498,7 +503,7 @@ class Padding(WidgetDecoration[WrappedWidget], typing.Generic[WrappedWidget]):
                 return False
             maxvals = (maxcol - left - right,) + size[1:]
         else:
-            maxvals = ()
+            maxvals = (self._width_amount,) if self._width_type == WHSettings.GIVEN else ()
         if self._width_type == WHSettings.CLIP:
             maxvals = ()
 
@@ -512,6 +517,8 @@ class Padding(WidgetDecoration[WrappedWidget], typing.Generic[WrappedWidget]):
         left, right = self.padding_values(size, True)
         if size and self._width_type != WHSettings.CLIP:
             maxvals = (size[0] - left - right,) + size[1:]
+        elif not size and self._width_type == WHSettings.GIVEN:
+            maxvals = (self._width_amount,)
         else:
             maxvals = ()
 
